@@ -37,6 +37,7 @@ type FuncResult struct {
 	Paths       int
 	Preamble    string
 	CoverPC     []string
+	ReturnPCs   [][]string
 	File        string
 	Trusted     bool
 }
@@ -113,7 +114,9 @@ func (p *Program) verifyFunc(name string, c *FuncContract) *FuncResult {
 	}
 	vc.entry = st.clone()
 	fr.oldState = vc.entry
+	res.CoverPC = append([]string{}, st.pc...)
 	covered := false
+	_ = covered
 	if len(vc.fatal) == 0 {
 		ex.run(fr, fn.Blocks[0], 0, nil, st, func(st2 *State, rets []Val, panicked bool) {
 			vc.paths++
@@ -123,9 +126,9 @@ func (p *Program) verifyFunc(name string, c *FuncContract) *FuncResult {
 				}
 				return
 			}
-			if !covered {
-				covered = true
-				res.CoverPC = append([]string{}, st2.pc...)
+			covered = true
+			if len(res.ReturnPCs) < 40 {
+				res.ReturnPCs = append(res.ReturnPCs, append([]string{}, st2.pc...))
 			}
 			post := ex.newEnv(st2, vc.entry, pkg, fr)
 			ex.bindParams(post, fr)
@@ -263,3 +266,61 @@ func (o *Obligation) Query(preamble string) string {
 }
 
 var _ = ssa.NaiveForm
+
+// verifyLemma: requires ==> ensures over fresh parameters.
+func (p *Program) verifyLemma(l *LemmaDecl) *FuncResult {
+	name := "lemma." + l.Name
+	res := &FuncResult{Name: name, File: shortFile(l.File)}
+	vc := NewVC(p, nil, nil)
+	vc.sprintfFormats = map[string]string{}
+	res.VC = vc
+	ex := &Exec{vc: vc}
+	st := NewState()
+	defer func() {
+		if r := recover(); r != nil {
+			res.Fatal = append(res.Fatal, fmt.Sprintf("generator panic in %s: %v", name, r))
+		}
+	}()
+	env := ex.newEnv(st, nil, l.pkg, nil)
+	for _, prm := range l.Params {
+		ty, s := env.resolveType(prm.Type)
+		if s == "" {
+			res.Fatal = append(res.Fatal, fmt.Sprintf("lemma %s: unknown type %s", l.Name, prm.Type))
+			return res
+		}
+		t := Term{"l_" + sanitize(prm.Name), s}
+		vc.declare(t.S, s)
+		env.binds[prm.Name] = TVal{T: t, Ty: ty}
+	}
+	for _, ga := range p.contracts.Assumes {
+		e2 := ex.newEnv(st, nil, ga.pkg, nil)
+		f := e2.Bool(ga.Expr)
+		if len(e2.errs) == 0 {
+			st.assume(f)
+		}
+	}
+	for _, r := range l.Requires {
+		f := env.Bool(r.Expr)
+		if len(env.errs) > 0 {
+			res.Fatal = append(res.Fatal, fmt.Sprintf("lemma %s requires %q: %s", l.Name, r.Text, strings.Join(env.errs, "; ")))
+			return res
+		}
+		st.assume(f)
+	}
+	res.CoverPC = append([]string{}, st.pc...)
+	for _, e := range l.Ensures {
+		env.ground = true
+		g := env.Bool(e.Expr)
+		if len(env.errs) > 0 {
+			res.Fatal = append(res.Fatal, fmt.Sprintf("lemma %s ensures %q: %s", l.Name, e.Text, strings.Join(env.errs, "; ")))
+			return res
+		}
+		o := &Obligation{Name: fmt.Sprintf("%s#lemma#%d", name, e.Ordinal), Kind: "lemma", Clause: e.Text, Where: fmt.Sprintf("%s:%d", shortFile(l.File), e.Line),
+			Assumes: append([]string{}, st.pc...), Goal: g, Func: name, Ground: env.ground}
+		vc.obligations = append(vc.obligations, o)
+	}
+	res.Obligations = vc.obligations
+	res.Fatal = append(res.Fatal, vc.fatal...)
+	res.Preamble = vc.preamble()
+	return res
+}
